@@ -5,7 +5,6 @@ import base64
 import collections
 import hashlib
 import json
-import multiprocessing
 import os
 import re
 import sys
@@ -130,6 +129,57 @@ class Collector:
 
 # ---------------------------------------------------------------------------
 # sharded execution
+#
+# Every shard runs in a forked child of its own.  While the code under test is
+# running inside a child, the input it is working on is kept in a shared-memory
+# slot and the kernel's RLIMIT_CPU soft limit is set a few seconds ahead of the
+# CPU time already used: a hang inside C code (a catastrophic regular
+# expression), which no Python-level timer can interrupt, kills the child with
+# SIGXCPU; the parent then reads the slot and reports the input instead of
+# waiting for ever.
+
+import mmap  # noqa: E402
+import pickle  # noqa: E402
+import resource  # noqa: E402
+import select  # noqa: E402
+import signal  # noqa: E402
+
+SLOT_SIZE = 1 << 16
+CPU_KILL_AFTER = 12  # seconds of CPU time for one guarded call
+_slot = None  # set in shard children
+_hard = resource.getrlimit(resource.RLIMIT_CPU)[1]
+
+
+def guard_enter(data):
+    """Remember what the code under test is about to work on, arm the kill limit."""
+    if _slot is None:
+        return
+    if isinstance(data, str):
+        data = data.encode("utf-8", "surrogatepass")
+    n = min(len(data), SLOT_SIZE - 4)
+    _slot[0:4] = n.to_bytes(4, "little")
+    _slot[4 : 4 + n] = data[:n]
+    try:
+        resource.setrlimit(resource.RLIMIT_CPU, (int(time.process_time()) + CPU_KILL_AFTER, _hard))
+    except (ValueError, OSError):
+        pass
+
+
+def guard_exit():
+    if _slot is None:
+        return
+    try:
+        resource.setrlimit(resource.RLIMIT_CPU, (_hard, _hard))
+    except (ValueError, OSError):
+        pass
+
+
+def unlimited_cpu():
+    """preexec_fn for helper subprocesses started from a shard child."""
+    try:
+        resource.setrlimit(resource.RLIMIT_CPU, (_hard, _hard))
+    except (ValueError, OSError):
+        pass
 
 
 def _run_shard(args):
@@ -142,20 +192,85 @@ def _run_shard(args):
         return ("crash", traceback.format_exc())
 
 
-def run_shards(func, shards, procs=None):
-    """Run func(shard) -> Collector for every shard in worker processes and
-    merge.  func must be a module-level function."""
+class ShardKilled:
+    """Result of a shard whose process died (e.g. SIGXCPU inside the code under test)."""
+
+    def __init__(self, shard, signum, current):
+        self.shard = shard
+        self.signum = signum
+        self.current = current
+
+
+def _child(func, shard, slot, wfd):
+    global _slot
+    _slot = slot
+    signal.signal(signal.SIGXCPU, signal.SIG_DFL)
+    res = _run_shard((func, shard))
+    data = pickle.dumps(res, protocol=pickle.HIGHEST_PROTOCOL)
+    off = 0
+    while off < len(data):
+        off += os.write(wfd, data[off : off + (1 << 16)])
+    os.close(wfd)
+    os._exit(0)
+
+
+def run_shards(func, shards, procs=None, on_killed=None):
+    """Run func(shard) -> Collector for every shard, each in a forked child,
+    at most `procs` at a time, and merge.  A child killed by the CPU limit is
+    turned into on_killed(ShardKilled) -> Collector (default: an 'inconclusive'
+    note)."""
     procs = procs or NPROC
     total = Collector()
-    if procs <= 1 or len(shards) <= 1:
-        results = [_run_shard((func, s)) for s in shards]
-    else:
-        ctx = multiprocessing.get_context("fork")
-        with ctx.Pool(min(procs, len(shards))) as pool:
-            results = pool.map(_run_shard, [(func, s) for s in shards], chunksize=1)
-    for status, val in results:
+    pending = list(enumerate(shards))
+    slots = [mmap.mmap(-1, SLOT_SIZE) for _ in range(min(procs, max(1, len(shards))))]
+    free = list(range(len(slots)))
+    running = {}  # rfd -> [pid, idx, slotno, bytearray]
+    outcomes = {}
+    sys.stdout.flush()
+    sys.stderr.flush()
+    while pending or running:
+        while pending and free:
+            idx, shard = pending.pop(0)
+            slotno = free.pop()
+            slots[slotno][0:4] = (0).to_bytes(4, "little")
+            r, w = os.pipe()
+            pid = os.fork()
+            if pid == 0:
+                os.close(r)
+                try:
+                    _child(func, shard, slots[slotno], w)
+                finally:
+                    os._exit(3)
+            os.close(w)
+            running[r] = [pid, idx, slotno, bytearray()]
+        ready, _, _ = select.select(list(running), [], [], 5.0)
+        for r in ready:
+            chunk = os.read(r, 1 << 20)
+            if chunk:
+                running[r][3] += chunk
+                continue
+            pid, idx, slotno, buf = running.pop(r)
+            os.close(r)
+            _, status = os.waitpid(pid, 0)
+            if os.WIFEXITED(status) and os.WEXITSTATUS(status) == 0 and buf:
+                outcomes[idx] = pickle.loads(bytes(buf))
+            else:
+                n = int.from_bytes(slots[slotno][0:4], "little")
+                cur = bytes(slots[slotno][4 : 4 + n])
+                sig = os.WTERMSIG(status) if os.WIFSIGNALED(status) else -os.WEXITSTATUS(status)
+                outcomes[idx] = ("killed", ShardKilled(shards[idx], sig, cur))
+            free.append(slotno)
+    for idx in range(len(shards)):
+        status, val = outcomes[idx]
         if status == "ok":
             total.merge(val)
+        elif status == "killed":
+            if on_killed is not None:
+                total.merge(on_killed(val))
+            else:
+                total.inconclusive.append("a worker process was killed (signal %s) while the code under test was working on %r; "
+                                          "its shard is not covered (hangs are C02's subject)" % (val.signum, val.current[:200]))
+                total.exhaustive = False
         elif status == "harness":
             raise HarnessError(val)
         else:
